@@ -204,3 +204,51 @@ def check_scope(r, rule, qualnames):
         for n, nd, k in bad:
             r.rep.ob(rule, q, False, f"name '{n}' is read but never bound ({k} scope): NameError at run time",
                      where_of(r.P, s.func, nd), expected="a binding on every path to the read", found="no binding", key=f"unbound {n}")
+
+
+# --------------------------------------------------------------------------- canonical binders / standard rewrite pipeline
+def canon_binders(t):
+    """Alpha-normalise lambdas and comprehensions (ids and parameter names) so that structurally equal binders are equal terms."""
+    h = head(t)
+    if h == "lam":
+        lamid, params, body = t[1], t[2], t[3]
+        level = 1 + max([x[1][1] for x in walk(body) if x[0] == "lam" and isinstance(x[1], tuple) and x[1][0] == "clam"] + [-1])
+        cid = ("clam", level)
+        m = {("lparam", lamid, p[0]): ("lparam", cid, f"_{i}") for i, p in enumerate(params)}
+        return ("lam", cid, tuple((f"_{i}", p[1], p[2]) for i, p in enumerate(params)), subst(body, m))
+    if h == "comp":
+        compid = t[4]
+        level = 1 + max([x[4][1] for x in walk((t[2], t[3])) if x[0] == "comp" and isinstance(x[4], tuple) and x[4][0] == "ccomp"] + [-1])
+        cid = ("ccomp", level)
+        m = {}
+        for x in walk(t):
+            if x[0] == "citer" and x[1] == compid:
+                m[x] = ("citer", cid, x[2], x[3])
+        # inner-most first is not required: iterables of later generators may mention earlier elements
+        out = t
+        for _ in range(3):
+            new = subst(out, m)
+            if new == out:
+                break
+            out = new
+            m = {x: ("citer", cid, x[2], x[3]) for x in walk(out) if x[0] == "citer" and x[1] == compid}
+        return ("comp", out[1], out[2], out[3], cid)
+    return t
+
+
+def std_rewrites(ident=("numpy.asarray", "numpy.array", "pyrepseq.util.ensure_numpy")):
+    from .libmodels import canon_call, dict_rewrite, filter_idempotent, tuple_of_items
+    ident = set(ident)
+
+    def drop_ident(t):
+        if head(t) == "call" and head(strip(t[1])) == "glob" and strip(t[1])[1] in ident and len(t[2]) >= 1 and head(t[2][0]) != "star":
+            return t[2][0]
+        return t
+
+    def unfloat(t):
+        # 1.0 == 1, 0.5 == 1/2 as exact constants inside opaque atoms
+        if is_const(t) and isinstance(t[2], float) and t[2] == int(t[2]) and abs(t[2]) < 1e15:
+            return const(int(t[2]))
+        return t
+
+    return [drop_ident, unfloat, canon_call, tuple_of_items, dict_rewrite, filter_idempotent, canon_binders]
